@@ -25,6 +25,7 @@ import (
 	"go/token"
 	"go/types"
 	"sort"
+	"strings"
 
 	"godcheck/core"
 
@@ -265,5 +266,486 @@ func c05TypedSetRule(r *core.Run, o *core.O, funcs []*ssa.Function) {
 			o.Fail(p.InstrPos(cs), "%s calls %s, which stores a value of static type %s into the reflect.Value it is handed (reflect.Value.Set; chain %s), on a path where the field's type was never compared with %s (a package-level reflect.TypeOf(%s) variable or AssignableTo): a test of the Kind alone also admits every other type of the same underlying kind (an int64 field for time.Duration), for which Set panics instead of an error being returned",
 				core.FuncName(g), core.FuncName(f), Ts, n.chain, Ts, Ts)
 		}
+	}
+}
+
+// c05TypedSetters: the functions of funcs that store a statically typed value
+// (reflect.ValueOf(x), x of a named type) with reflect.Value.Set into a
+// reflect.Value they were handed, and that have a string parameter the value is
+// parsed from (fillDurationValue by role).
+func c05TypedSetters(funcs []*ssa.Function) []*ssa.Function {
+	var out []*ssa.Function
+	for _, f := range funcs {
+		found := false
+		for _, in := range core.Instrs(f, core.CallTo("(reflect.Value).Set")) {
+			c, ok := in.(*ssa.Call)
+			if ok && len(c.Call.Args) == 2 && typedValueOf(c.Call.Args[1]) != nil {
+				found = true
+			}
+		}
+		if !found {
+			continue
+		}
+		for _, pa := range f.Params {
+			if b, ok := pa.Type().Underlying().(*types.Basic); ok && b.Kind() == types.String {
+				out = append(out, f)
+				break
+			}
+		}
+	}
+	return out
+}
+
+// D4/K2/validated-before-set/typed-from-document
+//
+// A field with options= accepts only the listed values, whatever its type. The
+// typed setters (time.Duration parsed from a string) do not look at the options
+// themselves, so every call that hands them a value taken from the document or
+// the environment must come after a successful validateValueInOptions for this
+// field's options; a default= value (the programmer's own) is exempt.
+func c05TypedValidatedRule(r *core.Run, o *core.O, funcs []*ssa.Function) {
+	p := r.P
+	setters := c05TypedSetters(funcs)
+	if !o.Need(len(setters) > 0, "a typed setter (reflect.Value.Set of a named-type value parsed from a string) in "+mapPkg) {
+		return
+	}
+	isValidate := func(in ssa.Instruction) bool {
+		c := core.AsCall(in)
+		return c != nil && staticCallee(c) != nil && core.Short(core.FuncName(staticCallee(c))) == mapPkg+".validateValueInOptions"
+	}
+	isDefault := func(v ssa.Value) bool {
+		c, i := core.ResultOf(core.Forward(v))
+		return c != nil && i == 0 && !c.Call.IsInvoke() && strings.HasSuffix(core.CalleeName(c), "fieldOptionsWithContext).getDefault")
+	}
+	n := 0
+	for _, s := range setters {
+		sIdx := -1
+		for j, pa := range s.Params {
+			if b, ok := pa.Type().Underlying().(*types.Basic); ok && b.Kind() == types.String {
+				sIdx = j
+			}
+		}
+		sites, esc := callSitesOf(funcs, s)
+		if esc {
+			o.Unres("%s is used as a value: its callers cannot be enumerated", core.FuncName(s))
+		}
+		for _, cs := range sites {
+			g := cs.Parent()
+			arg := cs.Common().Args[sIdx]
+			if core.DependsOn(arg, isDefault) {
+				continue // default=: not a document value
+			}
+			n++
+			r.Fn(core.FuncName(g))
+			in := cs.(ssa.Instruction)
+			if len(core.Calls(g, isValidate)) == 0 {
+				o.Fail(p.InstrPos(in), "%s hands a value taken from the document or the environment to %s without running validateValueInOptions: a field with options= accepts a value that is not listed", core.FuncName(g), core.FuncName(s))
+				continue
+			}
+			if w := requiresX(g, core.Is(in), core.ErrNil(0, isValidate)); w != nil {
+				o.Fail(p.InstrPos(in), "%s reaches %s on a path on which validateValueInOptions was not run or its error was ignored: a field with options= accepts a value that is not listed", core.FuncName(g), core.FuncName(s))
+			}
+		}
+	}
+	o.Site(n, mapPkg+": typed setter calls with a document/environment value")
+	if n == 0 {
+		o.Unres("no call of a typed setter with a document or environment value found")
+	}
+}
+
+// D6/K5/shared-containers-stay-private
+//
+// A package-level map or slice of lib/mapping is shared by every unmarshal of the
+// process. If one of them is handed out as a VALUE (converted to an interface,
+// stored, passed to a function, returned) it can end up inside a caller's struct -
+// `emptyMap` did, for every absent required map[string]any field - and whatever the
+// caller writes into its struct then shows up in every later unmarshal: the field no
+// longer equals the document's value. Such variables may only be indexed, ranged
+// over, measured and updated in place.
+func c05SharedContainersRule(r *core.Run, o *core.O, funcs []*ssa.Function) {
+	p := r.P
+	n := 0
+	for _, f := range funcs {
+		if f.Name() == "init" && f.Parent() == nil {
+			continue
+		}
+		for _, b := range f.Blocks {
+			for _, in := range b.Instrs {
+				u, ok := in.(*ssa.UnOp)
+				if !ok || u.Op != token.MUL {
+					continue
+				}
+				g, ok := u.X.(*ssa.Global)
+				if !ok || g.Pkg != f.Pkg {
+					continue
+				}
+				switch u.Type().Underlying().(type) {
+				case *types.Map, *types.Slice:
+				default:
+					continue
+				}
+				n++
+				var escape func(v ssa.Value, depth int) ssa.Instruction
+				escape = func(v ssa.Value, depth int) ssa.Instruction {
+					if depth > 4 || v.Referrers() == nil {
+						return nil
+					}
+					for _, ref := range *v.Referrers() {
+						switch x := ref.(type) {
+						case *ssa.Lookup, *ssa.Range, *ssa.Index, *ssa.IndexAddr, *ssa.DebugRef:
+						case *ssa.MapUpdate:
+							if x.Map != v {
+								return ref // stored as a key or value of another map
+							}
+						case *ssa.Call:
+							if bi, isB := x.Call.Value.(*ssa.Builtin); isB {
+								switch bi.Name() {
+								case "len", "cap", "delete":
+									continue
+								case "append":
+									// append(shared, …) builds on the shared backing array: escapes through its result
+								}
+							}
+							return ref
+						case *ssa.ChangeType:
+							if w := escape(x, depth+1); w != nil {
+								return w
+							}
+						case *ssa.Phi:
+							if w := escape(x, depth+1); w != nil {
+								return w
+							}
+						case *ssa.Slice:
+							if w := escape(x, depth+1); w != nil {
+								return w
+							}
+						default:
+							return ref
+						}
+					}
+					return nil
+				}
+				if w := escape(u, 0); w != nil {
+					r.Fn(core.FuncName(f))
+					o.Fail(p.InstrPos(w), "%s hands out the package-level %s (a map/slice shared by every unmarshal of the process) as a value: it can become part of a caller's struct, and a write through that struct then changes what later unmarshals produce", core.FuncName(f), g.Name())
+				}
+			}
+		}
+	}
+	o.Site(n, mapPkg+": reads of package-level maps/slices")
+}
+
+// D8/K3/constant-index-within-length
+//
+// s[k] and s[k:] with a constant k on a slice that an in-package function computed
+// (a list of tag segments, of option values ...) panic when the list is shorter. The
+// rule demands a dominating test that establishes len(s) > k (for s[k]) or len(s) >= k
+// (for s[k:]) in the same function - unless the slice was built right there with a
+// sufficient constant length.
+func c05ConstIndexRule(r *core.Run, o *core.O, funcs []*ssa.Function) {
+	p := r.P
+	inPkg := map[*ssa.Function]bool{}
+	for _, f := range funcs {
+		inPkg[f] = true
+	}
+	n := 0
+	for _, f := range funcs {
+		check := func(in ssa.Instruction, s ssa.Value, k int64, strict bool) {
+			c, ok := core.Forward(s).(*ssa.Call)
+			if !ok {
+				return
+			}
+			callee := staticCallee(c)
+			if callee == nil || !inPkg[callee] {
+				return
+			}
+			if _, isSlice := s.Type().Underlying().(*types.Slice); !isSlice {
+				return
+			}
+			n++
+			r.Fn(core.FuncName(f))
+			need := k
+			if strict {
+				need = k + 1
+			}
+			if need <= 0 {
+				return
+			}
+			isList := func(v ssa.Value) bool { return core.Forward(v) == ssa.Value(c) }
+			isLen := core.IsLenOf(isList)
+			atoms := []core.Atom{gxAtLeast(isLen, need)}
+			if need == 1 {
+				atoms = append(atoms, core.Not(core.EmptyLen(isList))) // a length is never negative: "not empty" is ">= 1"
+			}
+			if w := requiresX(f, core.Is(in), atoms...); w != nil {
+				o.Fail(p.InstrPos(in), "%s takes element/sub-slice %d of the list returned by %s without a test that the list has at least %d elements: for an input for which the list is shorter (a blank struct tag yields no segments) this panics instead of returning an error", core.FuncName(f), k, core.FuncName(callee), need)
+			}
+		}
+		for _, b := range f.Blocks {
+			for _, in := range b.Instrs {
+				switch x := in.(type) {
+				case *ssa.IndexAddr:
+					if k, ok := core.ConstInt(x.Index); ok {
+						check(in, x.X, k, true)
+					}
+				case *ssa.Index:
+					if k, ok := core.ConstInt(x.Index); ok {
+						check(in, x.X, k, true)
+					}
+				case *ssa.Slice:
+					if x.Low != nil {
+						if k, ok := core.ConstInt(x.Low); ok {
+							check(in, x.X, k, false)
+						}
+					}
+				}
+			}
+		}
+	}
+	o.Site(n, mapPkg+": constant subscripts of computed lists")
+	if n == 0 {
+		o.Unres("no constant subscript of an in-package function's result found in %s", mapPkg)
+	}
+}
+
+// D6/K5/memo-key-covers-what-the-value-depends-on
+//
+// defaultCache memoises the parsed form of a default= text. The parse is chosen by
+// the element kind (strings by segments, everything else as JSON), so the memo key
+// must depend on the element kind as well as on the text: otherwise the form parsed
+// for one field is served to a field of the other kind and its declared default is
+// refused with a type mismatch (depending on which struct was unmarshalled first).
+func c05MemoKeyRule(r *core.Run, o *core.O, funcs []*ssa.Function) {
+	p := r.P
+	n := 0
+	for _, f := range funcs {
+		for _, b := range f.Blocks {
+			for _, in := range b.Instrs {
+				mu, ok := in.(*ssa.MapUpdate)
+				if !ok {
+					continue
+				}
+				ld, ok := core.Forward(mu.Map).(*ssa.UnOp)
+				if !ok {
+					continue
+				}
+				g, ok := ld.X.(*ssa.Global)
+				if !ok || g.Pkg != f.Pkg {
+					continue
+				}
+				// what decides HOW the stored value is computed: the conditions of the branches between
+				// the function entry and this store that test something other than the lookup's outcome
+				var conds []ssa.Value
+				for _, bb := range f.Blocks {
+					iff, ok := gxLast(bb).(*ssa.If)
+					if !ok {
+						continue
+					}
+					// only branches that lead to differently computed stored values: both arms must reach the store
+					_, r0 := core.Reach(core.Q{From: []core.At{core.Head(bb.Succs[0])}, Target: core.Is(in)})
+					_, r1 := core.Reach(core.Q{From: []core.At{core.Head(bb.Succs[1])}, Target: core.Is(in)})
+					if !r0 || !r1 {
+						continue
+					}
+					conds = append(conds, iff.Cond)
+				}
+				n++
+				r.Fn(core.FuncName(f))
+				for _, c := range conds {
+					bo, ok := c.(*ssa.BinOp)
+					if !ok {
+						continue
+					}
+					for _, opnd := range []ssa.Value{bo.X, bo.Y} {
+						opnd = core.Forward(opnd)
+						if _, isConst := opnd.(*ssa.Const); isConst {
+							continue
+						}
+						if core.DependsOn(opnd, func(v ssa.Value) bool { _, isLookup := v.(*ssa.Lookup); return isLookup }) {
+							continue // the lookup's own outcome
+						}
+						if !core.DependsOn(mu.Key, func(v ssa.Value) bool { return core.Forward(v) == opnd }) {
+							// the value is computed differently depending on opnd, the key is not
+							if valueDependsOnBranch(f, in, c) {
+								o.Fail(p.InstrPos(in), "%s memoises a value in the package-level %s under a key that does not depend on %s, although %s decides how the value is computed: the form cached for one kind of field is served to the other", core.FuncName(f), g.Name(), core.Describe(opnd), core.Describe(opnd))
+							}
+						}
+					}
+				}
+			}
+		}
+	}
+	o.Site(n, mapPkg+": stores into package-level memo maps")
+}
+
+// valueDependsOnBranch: between the branch on cond and the map update in, at least one arm assigns
+// (stores or calls) something, i.e. the arms compute the memoised value differently.
+func valueDependsOnBranch(f *ssa.Function, in ssa.Instruction, cond ssa.Value) bool {
+	for _, bb := range f.Blocks {
+		iff, ok := gxLast(bb).(*ssa.If)
+		if !ok || iff.Cond != cond {
+			continue
+		}
+		for _, arm := range bb.Succs {
+			for _, x := range arm.Instrs {
+				if _, isCall := x.(*ssa.Call); isCall {
+					return true
+				}
+			}
+		}
+	}
+	return false
+}
+
+// D3/K2/null-accepted-only-when-optional
+//
+// A field whose document value is null counts as absent. In the functions of
+// lib/mapping that test a document value (a value of interface type taken from a
+// valueWithParent or handed in as `any`) against nil, success (a nil error) without
+// having set the field is returned from the null arm only on the true edge of the
+// field's optional() - a required field given null must fail.
+func c05NullRule(r *core.Run, o *core.O, funcs []*ssa.Function) {
+	p := r.P
+	isOptional := core.BoolVal(func(v ssa.Value) bool {
+		c, ok := v.(*ssa.Call)
+		return ok && !c.Call.IsInvoke() && strings.HasSuffix(core.CalleeName(c), "fieldOptionsWithContext).optional")
+	})
+	n := 0
+	for _, f := range funcs {
+		res := f.Signature.Results()
+		if res.Len() == 0 || res.At(res.Len()-1).Type().String() != "error" {
+			continue
+		}
+		isDoc := func(v ssa.Value) bool {
+			v = core.Forward(v)
+			if _, isIface := v.Type().Underlying().(*types.Interface); !isIface {
+				return false
+			}
+			return core.FieldAddrNameOfLoad(v) == "valueWithParent.value"
+		}
+		null := core.Cmp(token.EQL, isDoc, core.IsNil)
+		holds, _ := core.EdgesOf(f, null)
+		if len(holds) == 0 {
+			continue
+		}
+		n++
+		r.Fn(core.FuncName(f))
+		optTrue, _ := core.EdgesOf(f, isOptional)
+		nilRet := func(in ssa.Instruction) bool {
+			ret, ok := in.(*ssa.Return)
+			return ok && core.IsNil(core.Result(ret, len(ret.Results)-1))
+		}
+		var from []core.At
+		for _, e := range holds {
+			from = append(from, core.Head(e.To))
+		}
+		if w, ok := core.Reach(core.Q{From: from, Target: nilRet, Cut: core.CutSet(optTrue)}); ok {
+			o.Fail(p.InstrPos(w), "%s accepts a null document value (returns nil without setting the field) on a path on which the field's optional() was not found true: a required field given null is silently left zero", core.FuncName(f))
+		}
+	}
+	o.Site(n, mapPkg+": functions testing a document value against nil")
+	if n == 0 {
+		o.Unres("no function of %s tests a document value against nil", mapPkg)
+	}
+}
+
+// D6/K1/fresh-target-per-element
+//
+// While a container is filled element by element, the reflect.New target that ends
+// up in the container (SetMapIndex / Set of an indexed element / append) is created
+// once per element: the reflect.New call lies inside the loop that stores it. A
+// target hoisted out of the loop makes every pointer element alias one object and
+// lets a value element inherit the fields of the previously processed entry.
+func c05FreshTargetRule(r *core.Run, o *core.O, funcs []*ssa.Function) {
+	p := r.P
+	n := 0
+	isNew := func(v ssa.Value) *ssa.Call {
+		c, ok := v.(*ssa.Call)
+		if ok && !c.Call.IsInvoke() && core.CalleeName(c) == "reflect.New" {
+			return c
+		}
+		return nil
+	}
+	var origin func(v ssa.Value, depth int) *ssa.Call
+	origin = func(v ssa.Value, depth int) *ssa.Call {
+		v = core.Forward(v)
+		if c := isNew(v); c != nil {
+			return c
+		}
+		if depth > 4 {
+			return nil
+		}
+		if c, ok := v.(*ssa.Call); ok && !c.Call.IsInvoke() {
+			switch core.CalleeName(c) {
+			case "(reflect.Value).Elem", "(reflect.Value).Addr", "(reflect.Value).Convert":
+				return origin(c.Call.Args[0], depth+1)
+			}
+		}
+		if ph, ok := v.(*ssa.Phi); ok {
+			for _, e := range ph.Edges {
+				if c := origin(e, depth+1); c != nil {
+					return c
+				}
+			}
+		}
+		return nil
+	}
+	isDirect := core.CallTo("(reflect.Value).SetMapIndex", "(reflect.Value).Set")
+	// in-package helpers that store one of their reflect.Value parameters as an element (setMapIndex by role)
+	storers := map[*ssa.Function]int{}
+	for _, g := range funcs {
+		if g.Parent() != nil {
+			continue
+		}
+		for _, in := range core.Instrs(g, isDirect) {
+			c, ok := in.(*ssa.Call)
+			if !ok {
+				continue
+			}
+			src := core.Forward(c.Call.Args[len(c.Call.Args)-1])
+			for j, pa := range g.Params {
+				if isReflectValue(pa.Type()) && core.DependsOn(src, func(v ssa.Value) bool { return v == ssa.Value(pa) }) && ssa.Value(pa) != core.Forward(c.Call.Args[0]) {
+					storers[g] = j
+				}
+			}
+		}
+	}
+	for _, f := range funcs {
+		for _, in := range core.Instrs(f, func(in ssa.Instruction) bool {
+			if isDirect(in) {
+				return true
+			}
+			c := core.AsCall(in)
+			if c == nil || staticCallee(c) == nil {
+				return false
+			}
+			_, ok := storers[staticCallee(c)]
+			return ok
+		}) {
+			c, ok := in.(*ssa.Call)
+			if !ok {
+				continue
+			}
+			if _, inLoop := core.Reach(core.Q{From: []core.At{core.After(c)}, Target: core.Is(c)}); !inLoop {
+				continue
+			}
+			src := c.Call.Args[len(c.Call.Args)-1]
+			if j, viaHelper := storers[staticCallee(c)]; viaHelper && !isDirect(in) {
+				src = c.Call.Args[j]
+			}
+			nw := origin(src, 0)
+			if nw == nil || nw.Parent() != f {
+				continue
+			}
+			n++
+			r.Fn(core.FuncName(f))
+			if _, again := core.Reach(core.Q{From: []core.At{core.After(c)}, Target: core.Is(nw)}); !again {
+				o.Fail(p.InstrPos(c), "%s stores, element after element, a target that was allocated once before the loop (%s): every pointer element then aliases one object, and a value element keeps the fields an earlier entry had set", core.FuncName(f), p.InstrPos(nw))
+			}
+		}
+	}
+	o.Site(n, mapPkg+": per-element stores of a reflect.New target")
+	if n == 0 {
+		o.Unres("no per-element store of a reflect.New target found in %s", mapPkg)
 	}
 }
